@@ -153,6 +153,83 @@ class LiftedSource:
         return bool(self.choice(name, 2))
 
 
+class PinnedSource(LiftedSource):
+    """Lifted machinery (shims, object arrays, proxies) but every input pinned to the float the real run uses.
+    Used to tell rounding of a solver model at a branch boundary from a genuine shim/encoding mismatch."""
+
+    def __init__(self, ctx, values, tables):
+        super().__init__(ctx)
+        self.values = values
+        self.tables = tables
+        self.counter = {}
+
+    def real(self, name):
+        return float(Fraction(self.values.get(name, 0)))
+
+    def int(self, name):
+        return int(Fraction(self.values.get(name, 0)))
+
+    def _fresh(self, base):
+        n = self.counter.get(base, 0)
+        self.counter[base] = n + 1
+        return '%s!%d' % (base, n)
+
+    def fresh_real(self, base):
+        return self.real(self._fresh(base))
+
+    def fresh_int(self, base):
+        return self.int(self._fresh(base))
+
+    def func(self, name, dim, out_len=1):
+        f = ConcreteFunc(name, dim, out_len, self.tables.get(name, []))
+        self.funcs[name] = f
+        return f
+
+    def choice(self, name, n):
+        return self.int(name)
+
+    def flag(self, name):
+        return bool(self.int(name))
+
+    def assume(self, cond):
+        if is_sym(cond):
+            self.ctx.assume(cond)
+        elif not cond:
+            raise ConcreteAssumeFailed()
+
+    def eq(self, a, b, scale=1.0, tol=None):
+        if is_sym(a) or is_sym(b):
+            return a == b
+        a = float(a)
+        b = float(b)
+        return abs(a - b) <= CONC_TOL * max(1.0, abs(scale), abs(a), abs(b))
+
+
+def run_pinned(job, vals, tables):
+    """Observations of the harness run through the lifted machinery on pinned (float) inputs."""
+    out = {}
+
+    def body(ctx):
+        S = PinnedSource(ctx, vals, tables)
+        ctx.S = S
+        ctx.hash_mode = job.hash_mode
+        with _quiet():
+            job.fn(S, **job.params)
+        out['obs'] = list(ctx.observations)
+        out['ctx'] = ctx
+
+    if job.use_shim:
+        shim.install()
+    try:
+        try:
+            core.explore(body, timeout_ms=job.timeout_ms, max_paths=1)
+        except BaseException:
+            return None
+    finally:
+        core.set_ctx(None)
+    return out
+
+
 class ConcreteSource:
     lifted = False
 
@@ -387,7 +464,17 @@ def run_job(job, seed=0):
                         _record_violation(job, summ, vals, tables, bad[0], 'concrete run of a feasible path violates the goal',
                                           True, None)
                     elif mism:
-                        summ['validation_mismatch'].append({'path': idx, 'why': mism, 'values': _jsonable_values(vals)})
+                        # rounding of the model at a branch boundary, or a genuine shim mismatch?  Re-run the lifted machinery
+                        # on exactly the floats the real run used and compare again.
+                        pin = run_pinned(job, vals, tables)
+                        shim.install()
+                        mism2 = 'pinned run failed'
+                        if pin is not None and 'obs' in pin:
+                            mism2 = _compare_obs_lists(pin['obs'], res['observations'])
+                        if mism2:
+                            summ['validation_mismatch'].append({'path': idx, 'why': mism + ' | pinned: ' + str(mism2), 'values': _jsonable_values(vals)})
+                        else:
+                            summ['validation_skipped'] += 1
                     else:
                         summ['validated'] += 1
                 if len(summ['samples']) < 3:
@@ -460,6 +547,26 @@ def _compare_obs(ctx, model, conc_obs):
             y = float(y)
             if abs(x - y) > 1e-7 * max(1.0, abs(x), abs(y)):
                 return 'observation %s: lifted %r vs real %r' % (n1, x, y)
+    return None
+
+
+def _compare_obs_lists(a_obs, b_obs):
+    if len(a_obs) != len(b_obs):
+        return 'observation count differs'
+    for (n1, v1), (n2, v2) in zip(a_obs, b_obs):
+        a = _flat(v1)
+        b = _flat(v2)
+        if n1 != n2 or len(a) != len(b):
+            return 'observation %s: shape differs' % n1
+        for x, y in zip(a, b):
+            if is_sym(x):
+                return 'observation %s is symbolic in the pinned run' % n1
+            if isinstance(x, str) or isinstance(y, str) or x is None or y is None:
+                if x != y:
+                    return 'observation %s: %r vs %r' % (n1, x, y)
+                continue
+            if abs(float(x) - float(y)) > 1e-7 * max(1.0, abs(float(x)), abs(float(y))):
+                return 'observation %s: pinned %r vs real %r' % (n1, x, y)
     return None
 
 
